@@ -5,7 +5,7 @@ from hypothesis import strategies as st
 
 import ndn.app_support.security_v2 as secv2
 from ndn.app_support.security_v2 import derive_cert, parse_certificate, self_sign, sign_req
-from ndn.encoding import parse_data
+from ndn.encoding import MetaInfo, Signer, make_data, parse_data
 
 from .. import keys as K
 from .. import pkt as P
@@ -32,6 +32,26 @@ ASSUMPTIONS = [
 ]
 
 SUBJECTS = sorted(K.KEYS)
+
+
+class _Reentrant(Signer):
+    """An issuing signer that writes a signed audit record (another Data packet) each time it is asked for a signature."""
+
+    def __init__(self, inner):
+        self.inner = inner
+        self.records = []
+
+    def write_signature_info(self, signature_info):
+        self.inner.write_signature_info(signature_info)
+
+    def get_signature_value_size(self):
+        return self.inner.get_signature_value_size()
+
+    def write_signature_value(self, wire, contents):
+        rec = make_data([T.enc_tlv(8, b'audit'), T.enc_tlv(8, b'%d' % len(self.records))], MetaInfo(), b'issued',
+                        signer=K.SyntheticSigner(72, 69, 200, [T.enc_tlv(8, b'auditor')], 7))
+        self.records.append(rec)          # (kept as returned: nobody may touch it later)
+        return self.inner.write_signature_value(wire, contents)
 
 
 def fmt(d):
@@ -73,7 +93,8 @@ def _case(draw):
             'second_tz': draw(st.sampled_from([None, None, 0, 540, -300, 60])),
             'dur': draw(st.one_of(st.sampled_from([0, 1, 59, 60, 86399, 86400, 31536000, 100 * 365 * 86400]), st.integers(0, 10 ** 9))),
             'now': draw(_DATES), 'clock_ms': draw(st.integers(0, 2 ** 44)),
-            'target_total': draw(st.one_of(st.none(), st.integers(245, 261)))}
+            'target_total': draw(st.one_of(st.none(), st.integers(245, 261))),
+            'reentrant': draw(st.integers(0, 5)) == 0, 'relocate': draw(st.integers(0, 4)) == 0}
 
 
 def run_case(case):
@@ -99,6 +120,8 @@ def run_case(case):
         key_name_json = ident + [[8, b'KEY'.hex()], [8, case['key_id']]]
         key_name = P.name_in_rep(key_name_json, case['rep'])
         signer = K.make_signer(spec, record=False)
+        if case.get('reentrant'):
+            signer = _Reentrant(signer)
         try:
             if case['fn'] == 'derive':
                 try:
@@ -135,6 +158,35 @@ def run_case(case):
             break
         pad = max(1, case['target_total'] - len(wire) - 2)
     tag = case['fn']
+    if case.get('reentrant'):
+        for rec in signer.records:
+            try:
+                d = P.strict_data(bytes(rec))
+                if d['sig_value'] != K.SyntheticSigner(72, 69, 200, None, 7).value():
+                    r.bad(f'C16/{tag}/reentrant-signer/nested-packet-signature-altered', bytes(rec).hex()[:160])
+            except T.Malformed as e:
+                r.bad(f'C16/{tag}/reentrant-signer/nested-packet-malformed', f'{e} wire={bytes(rec).hex()[:160]}')
+        if not signer.records:
+            r.bad('C16/harness/reentrant-signer-not-called', '')
+    if case.get('relocate') and spec['kind'] in ('ecdsa', 'rsa', 'ed25519', 'hmac') and not case.get('reentrant'):
+        # the SAME signer object is re-configured (key_locator_name is its public attribute) and issues again
+        new_kl = [T.enc_tlv(8, b'moved'), T.enc_tlv(8, b'KEY'), T.enc_tlv(8, b'\x02')]
+        signer.key_locator_name = new_kl
+        try:
+            if case['fn'] == 'derive':
+                _n3, w3 = derive_cert(key_name, issuer_arg, pub, signer, start, case['dur'])
+            elif case['fn'] == 'self':
+                _n3, w3 = self_sign(key_name, pub, signer)
+            else:
+                _n3, w3 = sign_req(key_name, pub, signer)
+            c3 = P.strict_cert(bytes(w3))
+            kl3 = None if not c3['sig_info'] or c3['sig_info']['key_locator'] is None else c3['sig_info']['key_locator']['name']
+            if kl3 != new_kl:
+                r.bad(f'C16/{tag}/key-locator/after-signer-reconfigured', f'{kl3} != {new_kl}')
+        except T.Malformed as e:
+            r.bad(f'C16/{tag}/wire-malformed/second-issuance-same-signer', str(e))
+        except Exception as e:
+            r.bad(f'C16/{tag}/raised/second-issuance-same-signer/{_exc_sig(e)}', repr(e)[:200])
     if case['fn'] == 'derive' and case['aware'] and case.get('second_tz') is not None:
         # the same instant, expressed in another UTC offset, issued right afterwards in the same process:
         # each certificate shows the wall-clock fields of the datetime IT was given
@@ -207,7 +259,8 @@ def run_case(case):
     near = abs(len(wire) - 253) <= 8
     r.key = (tag, K.KEYS[case['subject']]['kind'], spec['kind'], shrink, outer, near) if (shrink > 0 or near) else None
     r.classes = (tag, f'subject:{K.KEYS[case["subject"]]["kind"]}', f'issuer:{spec["kind"]}', f'shrink:{min(shrink, 4)}',
-                 'near-253' if near else 'far')
+                 'near-253' if near else 'far') + (('reentrant-signer',) if case.get('reentrant') else ()) + \
+        (('signer-reconfigured',) if case.get('relocate') else ())
     return r
 
 
